@@ -37,6 +37,20 @@ type c11Panic struct{ N int }
 
 func (c11Panic) MarshalJSON() ([]byte, error) { panic("marshaler panicked") }
 
+// c11Reentrant's marshaler calls back into the library.
+type c11Reentrant struct{ P0, P1, P2, P3 int }
+
+func (r c11Reentrant) MarshalJSON() ([]byte, error) {
+	return json.Marshal(map[string]int{"P0": r.P0, "P1": r.P1, "P2": r.P2, "P3": r.P3})
+}
+
+type c11Holder struct {
+	A int
+	R c11Reentrant
+	B int
+	C int
+}
+
 type c11Mixed struct {
 	A int               `json:"a"`
 	S string            `json:"s"`
@@ -126,6 +140,9 @@ func c11Calls() []c11Call {
 				return "panic:" + msg
 			}
 			return out
+		}},
+		{"Marshal(member whose marshaler re-enters the library)", func(e *c11Env) string {
+			return r2(json.Marshal(c11Holder{A: 1, R: c11Reentrant{100, 101, 102, 103}, B: 2, C: 3}))
 		}},
 		{"Marshal(unsupported type)", func(e *c11Env) string { return r2(json.Marshal(map[string]interface{}{"c": make(chan int)})) }},
 		{"Marshal(cyclic value)", func(e *c11Env) string { return r2(json.Marshal(cyc)) }},
